@@ -55,6 +55,8 @@ impl AccumulatedRange {
         })
     }
     unsafe fn extract_unchecked(self) -> SourceRange {
+        #[cfg(feature = "verif")]
+        crate::verif::pre("parser.extract_unchecked", self.0.is_some());
         debug_assert!(self.0.is_some());
         match self.0 {
             Some(r) => r,
@@ -174,6 +176,8 @@ fn boxed_expr<E>(x: impl Into<E>) -> Box<E> {
 }
 
 unsafe fn take_first<T>(vec: Vec<T>) -> T {
+    #[cfg(feature = "verif")]
+    crate::verif::pre("parser.take_first", !vec.is_empty());
     debug_assert!(!vec.is_empty());
     vec.into_iter().next().unchecked_unwrap()
 }
@@ -833,6 +837,11 @@ impl<'a> Parser<'a> {
 
     fn is_current_negative_number(&self) -> bool {
         let mut lexer = self.lexer.clone();
+        #[cfg(feature = "verif")]
+        crate::verif::pre(
+            "parser.is_current_negative_number",
+            lexer.clone().next().is_some(),
+        );
         debug_assert!(lexer.clone().next().is_some());
         let first = unsafe { lexer.next().unchecked_unwrap() };
         first.id.is_minus()
@@ -899,6 +908,8 @@ impl<'a> Parser<'a> {
         .into_iter()
         .collect();
         if !require_comma {
+            #[cfg(feature = "verif")]
+            crate::verif::pre("parser.parameter_seps", seps.len() < seps.capacity());
             unsafe { seps.push_unchecked(TokenType::And) };
         }
         seps
@@ -1141,6 +1152,12 @@ impl<'a> Parser<'a> {
                 TokenType::With => self.parse_toplevel_expression_list().map(Into::into),
                 TokenType::Like => self.parse_poetic_number_literal().map(Into::into),
 
+                #[cfg(feature = "verif")]
+                _ => {
+                    crate::verif::pre("parser.parse_array_push_rhs", false);
+                    unsafe { unreachable_unchecked() }
+                }
+                #[cfg(not(feature = "verif"))]
                 _ => unsafe { unreachable_unchecked() },
             })
             .transpose()
